@@ -254,6 +254,12 @@ def run_driver(lines, timeout=1800):
 
 # ------------------------------------------------------------------ rust harness farm
 
+# files of a farm that are generated copies instead of links: /repo's text plus the lines given here (a child module may call the
+# private functions of the module it is declared in)
+FARM_APPEND = {
+    "ext": {"service_main.rs": '\n#[path = "%s"]\npub mod verif_child;\n' % os.path.join(VERIF, "harness", "ext_service_main_child.rs")},
+}
+
 FARMS = {
     # kind: (repo crate dir, engines file in /verif, package name)
     "agent": ("proxy_agent", os.path.join(VERIF, "harness", "agent_engines.rs"), "gpa-harness-agent"),
@@ -298,10 +304,11 @@ def build_harness(kind, timeout=3600):
     with locked("cargo"):
         os.makedirs(src, exist_ok=True)
         # refresh links
-        want = {e for e in os.listdir(rsrc) if e != "main.rs"}
+        appended = FARM_APPEND.get(kind, {})
+        want = {e for e in os.listdir(rsrc) if e != "main.rs" and e not in appended}
         for e in os.listdir(src):
             p = os.path.join(src, e)
-            if e == "main.rs":
+            if e == "main.rs" or e in appended:
                 continue
             if e not in want or not os.path.islink(p) or os.readlink(p) != os.path.join(rsrc, e):
                 if os.path.islink(p) or os.path.isfile(p):
@@ -312,6 +319,17 @@ def build_harness(kind, timeout=3600):
             p = os.path.join(src, e)
             if not os.path.lexists(p):
                 os.symlink(os.path.join(rsrc, e), p)
+        for e, extra in appended.items():
+            txt = open(os.path.join(rsrc, e)).read() + extra
+            pth = os.path.join(src, e)
+            if os.path.islink(pth):
+                os.unlink(pth)
+            try:
+                old = open(pth).read()
+            except OSError:
+                old = None
+            if old != txt:
+                open(pth, "w").write(txt)
         try:
             main_txt = _gen_main(open(os.path.join(rsrc, "main.rs")).read(), engines)
             cargo_txt = _gen_cargo(open(os.path.join(REPO, crate, "Cargo.toml")).read(), crate, pkg)
